@@ -8,6 +8,8 @@
 //   wide       pairs / triples of wchar_t, char16_t, char32_t buffers over their own boundary alphabets
 //   huge       the static pointer+length compare with one operand of length 0..2 and the other of
 //              claimed length 2^31-1 .. SIZE_MAX (only min(len) units are readable: guard page)
+//   aliased    both operands in the same storage: an object against itself / its own c_str(), and every pair of
+//              windows of one buffer through the static pointer+length compare (all four element types)
 //   unary      to_upper / to_lower over every byte value in every position, null-pointer overloads,
 //              reflexivity and hash equality of separately built equal strings
 //
@@ -715,6 +717,127 @@ static Pool long_pool(const std::vector<unsigned> &lens, const std::vector<unsig
     return p;
 }
 
+
+// ------------------------------------------------------------------ aliased operands
+// Both operands live in the same storage: the same object, a C-string pointer to the object's own data, and every
+// pair of windows [o1, o1+l1) / [o2, o2+l2) of one buffer handed to the static pointer+length compare.  The order
+// depends on the contents of the windows only, never on where they are.
+template <class T>
+static void check_aliased_buf(Ctx &c, const std::basic_string<T> &raw)
+{
+    typedef std::basic_string<T> S;
+    const char *tn = tname<T>();
+    ST::buffer<T> b(raw.data(), raw.size());
+    const T *p = b.data();
+    const size_t n = raw.size();
+    auto want_is = [&](const char *name, int obs, int want, const S &ea, const S &eb) {
+        val();
+        if (sgn(obs) != want)
+            c.fail(strf("buffer<%s>.%s:aliased-operands:%s", tn, name, cls_units(ea, eb)),
+                   strf("one buffer %s; effective operands %s vs %s: result %d, reference sign %d", showw(raw).c_str(), showw(ea).c_str(),
+                        showw(eb).c_str(), obs, want));
+    };
+    S cpre = ref::c_prefix(raw);
+    want_is("compare(buffer)", OP(b.compare(b)), 0, raw, raw);
+    val();
+    if (!OP(b == b) || OP(b != b) || OP(b < b)) c.fail(strf("buffer<%s>.operators:aliased-operands:equal", tn), strf("b=%s: ==, != or < wrong for b against itself", showw(raw).c_str()));
+    want_is("compare(const T*)", OP(b.compare(p)), ref::cmp_str(raw, cpre), raw, cpre);
+    for (size_t k : {size_t(0), size_t(1), n ? n - 1 : 0, n, n + 1, SZMAX}) {
+        S ea = ref::first_n(raw, k), ec = ref::first_n(cpre, k);
+        want_is("compare_n(buffer,n)", OP(b.compare_n(b, k)), 0, ea, ea);
+        want_is("compare_n(const T*,n)", OP(b.compare_n(p, k)), ref::cmp_str(ea, ec), ea, ec);
+    }
+    for (size_t o1 = 0; o1 <= (n ? 1 : 0); ++o1)
+        for (size_t o2 = 0; o2 <= (n ? 1 : 0); ++o2)
+            for (size_t l1 = 0; o1 + l1 <= n; ++l1)
+                for (size_t l2 = 0; o2 + l2 <= n; ++l2) {
+                    S ea = raw.substr(o1, l1), eb = raw.substr(o2, l2);
+                    int want = ref::cmp_str(ea, eb);
+                    want_is("compare(ptr,len,ptr,len)", OP(ST::buffer<T>::compare(p + o1, l1, p + o2, l2)), want, ea, eb);
+                    for (size_t mx : {size_t(0), size_t(1), l1 < l2 ? l1 : l2, l1 > l2 ? l1 : l2, SZMAX}) {
+                        S xa = ref::first_n(ea, mx), xb = ref::first_n(eb, mx);
+                        want_is("compare(ptr,len,ptr,len,max)", OP(ST::buffer<T>::compare(p + o1, l1, p + o2, l2, mx)), ref::cmp_str(xa, xb), xa, xb);
+                    }
+                }
+}
+
+static void check_aliased_string(Ctx &c, const std::string &raw)
+{
+    ST::string s = mkst(raw);
+    const char *z = s.c_str();
+    const char8_t *z8 = reinterpret_cast<const char8_t *>(z);
+    std::string cpre = ref::c_prefix(raw), f = ref::fold(raw), fc = ref::fold(cpre);
+    int wc = ref::cmp_str(raw, cpre);
+    bool fz = f == fc;
+    auto want_is = [&](const char *name, int obs, int want, const std::string &eb) {
+        val();
+        if (sgn(obs) != want)
+            c.fail(strf("string.%s:aliased-operands:%s", name, cls_units(raw, eb)),
+                   strf("s=%s against its own storage (effective right operand %s): result %d, reference sign %d", show(raw).c_str(),
+                        show(eb).c_str(), obs, want));
+    };
+    auto zero_iff = [&](const char *name, int obs, bool zero, const std::string &eb) {
+        val();
+        if ((obs == 0) != zero)
+            c.fail(strf("string.%s:aliased-operands:zero-iff-fold-equal", name),
+                   strf("s=%s against its own storage (effective right operand %s): result %d", show(raw).c_str(), show(eb).c_str(), obs));
+    };
+    want_is("compare(string)", OP(s.compare(s)), 0, raw);
+    zero_iff("compare_i(string)", OP(s.compare_i(s)), true, raw);
+    val();
+    if (!OP(s == s) || OP(s != s) || OP(s < s) || OP(ST::less_i()(s, s)) || !OP(ST::equal_i()(s, s)))
+        c.fail("string.operators:aliased-operands:equal", strf("s=%s: ==, !=, <, less_i or equal_i wrong for s against itself", show(raw).c_str()));
+    want_is("compare(const char*)", OP(s.compare(z)), wc, cpre);
+    want_is("compare(const char8_t*)", OP(s.compare(z8)), wc, cpre);
+    zero_iff("compare_i(const char*)", OP(s.compare_i(z)), fz, cpre);
+    zero_iff("compare(const char*,case_insensitive)", OP(s.compare(z, ST::case_insensitive)), fz, cpre);
+    val();
+    if (OP(s == z) != (wc == 0) || OP(s != z) != (wc != 0) || OP(z == s) != (wc == 0) || OP(s == z8) != (wc == 0))
+        c.fail(strf("string==const char*:aliased-operands:%s", cls_units(raw, cpre)),
+               strf("s=%s compared with its own c_str(): operator results disagree with the reference sign %d", show(raw).c_str(), wc));
+    for (size_t k : {size_t(0), size_t(1), raw.size() ? raw.size() - 1 : 0, raw.size(), raw.size() + 1, SZMAX}) {
+        std::string ea = ref::first_n(raw, k), ec = ref::first_n(cpre, k);
+        want_is("compare_n(string,n)", OP(s.compare_n(s, k)), 0, ea);
+        want_is("compare_n(const char*,n)", OP(s.compare_n(z, k)), ref::cmp_str(ea, ec), ec);
+        zero_iff("compare_ni(const char*,n)", OP(s.compare_ni(z, k)), ref::fold(ea) == ref::fold(ec), ec);
+        zero_iff("compare_ni(string,n)", OP(s.compare_ni(s, k)), true, ea);
+    }
+}
+
+template <class T>
+static void add_alias_stage(vf::Plan &plan, const char *an, const std::vector<uint32_t> &alpha, unsigned L, const std::vector<unsigned> &longs)
+{
+    // short sequences over the alphabet, plus long (heap-backed) ones: a fixed run with each alphabet symbol at 3 positions
+    auto inputs = std::make_shared<std::vector<std::basic_string<T>>>();
+    uint64_t n = vf::seq_count(alpha.size(), L);
+    std::vector<unsigned> d;
+    for (uint64_t i = 0; i < n; ++i) {
+        vf::seq_decode(i, alpha.size(), L, d);
+        std::basic_string<T> r;
+        for (unsigned x : d) r += (T)alpha[x];
+        inputs->push_back(r);
+    }
+    for (unsigned len : longs)
+        for (uint32_t v : alpha)
+            for (unsigned pos : {0u, len / 2, len - 1}) {
+                std::basic_string<T> r;
+                for (unsigned k = 0; k < len; ++k) r += (T)LONG_BASE[k % 40];
+                r[pos] = (T)v;
+                inputs->push_back(r);
+            }
+    plan.stage(strf("aliased:%s:one-buffer-all-window-pairs(%s^<=%u + long)", tname<T>(), an, L), inputs->size(),
+               [inputs](uint64_t i, Ctx &c) {
+                   const std::basic_string<T> &r = (*inputs)[i];
+                   vf::Outcome o = vf::guard([&] {
+                       check_aliased_buf<T>(c, r);
+                       if constexpr (sizeof(T) == 1) check_aliased_string(c, std::string(r.begin(), r.end()));
+                   });
+                   if (!o.ok()) c.fail(strf("buffer<%s>:aliased-operands:%s", tname<T>(), vf::outkind_name(o.kind)), o.str());
+                   if (r.size() >= 2) c.nontrivial();
+               },
+               [inputs](uint64_t i) { return showw((*inputs)[i]); });
+}
+
 static std::string unary_input(uint64_t i)
 {
     // every byte value in first / middle / last position of short (in-object) and long (heap) strings
@@ -917,6 +1040,15 @@ static void build(vf::Plan &plan, const vf::Opts &o)
     const std::vector<uint32_t> W32 = {0x0, 0x1, 0x41, 0x80, 0xFF, 0x100, 0xFFFF, 0x10000, 0x7FFFFFFF, 0x80000000u, 0xFFFFFFFFu};
     const std::vector<uint32_t> T16 = {0x0000, 0x0041, 0x7FFF, 0x8000, 0xFFFF}, T32 = {0x0, 0x41, 0x7FFFFFFF, 0x80000000u, 0xFFFFFFFFu};
     unsigned WL = T ? 3 : 2;
+    {
+        std::vector<uint32_t> a8(A14.begin(), A14.end());
+        std::vector<unsigned> longs = T ? std::vector<unsigned>{15, 16, 17, 40} : std::vector<unsigned>{16, 24};
+        std::vector<unsigned> wlongs = T ? std::vector<unsigned>{11, 12, 13, 16, 30} : std::vector<unsigned>{12, 18};
+        add_alias_stage<char>(plan, "A14", a8, T ? 4 : 3, longs);
+        add_alias_stage<char16_t>(plan, "W16", W16, T ? 4 : 3, longs);
+        add_alias_stage<char32_t>(plan, "W32", W32, T ? 4 : 3, wlongs);
+        add_alias_stage<wchar_t>(plan, "W32", W32, T ? 4 : 3, wlongs);
+    }
     add_wide_stages<char16_t>(plan, "W16", W16, WL, T16, T ? 3 : 2, {0x0000, 0x0041, 0xFFFF});
     add_wide_stages<char32_t>(plan, "W32", W32, WL, T32, T ? 3 : 2, {0x0, 0x41, 0x80000000u});
     add_wide_stages<wchar_t>(plan, "W32", W32, WL, T32, T ? 3 : 2, {0x0, 0x41, 0x80000000u});
